@@ -457,5 +457,10 @@ func main() {
 			scenario(pt, tr, dur, *seed*1000+int64(pi*10+ti))
 		}
 	}
+	cd := 600 * time.Millisecond
+	if *tier == "thorough" {
+		cd = 4 * time.Second
+	}
+	churn(cd)
 	fmt.Printf("RACER-END problems=%d\n", atomic.LoadInt32(&problems))
 }
